@@ -37,15 +37,18 @@ def via_constraints(name, kw, X, y):
         base._fit(X[np.column_stack(pos_neg)], weights=kw.get('weights')) if False else \
             base.fit(X[np.column_stack(pos_neg)], weights=kw.get('weights'))
         used = np.unique(np.column_stack(pos_neg))
+        cons = ('pairs', pos_neg)
       else:
         pos_neg = Constraints(y).positive_negative_pairs(n, random_state=seed)
         pairs, yp = wrap_pairs(X, pos_neg)
         base._fit(pairs, yp)          # the pairs learner's fit additionally calibrates a threshold
         used = np.unique(np.concatenate(pos_neg))
+        cons = ('pairs', pos_neg)
     elif name == 'RCA_Supervised':
       chunks = Constraints(y).chunks(n_chunks=kw['n_chunks'], chunk_size=kw['chunk_size'], random_state=seed)
       base.fit(X, chunks)
       used = np.flatnonzero(chunks >= 0)
+      cons = ('chunks', chunks)
     else:
       trip = Constraints(y).generate_knntriplets(X, kw['k_genuine'], kw['k_impostor'])
       if kw.get('basis', 'lda') == 'lda':
@@ -58,7 +61,29 @@ def via_constraints(name, kw, X, y):
       else:
         base.fit(X[trip])
       used = np.unique(trip)
-  return base, used
+      cons = ('triplets', trip)
+  return base, used, cons
+
+
+def label_derived(cons, y):
+  """the tuples must be what the labels say: similar = equal known labels, dissimilar = different known labels"""
+  kind, c = cons
+  y = np.asarray(y)
+  if kind == 'pairs':
+    a, b, cc, d = [np.asarray(v, dtype=int) for v in c]
+    if np.any(y[a] != y[b]):
+      return 'a similar pair joins different labels'
+    if np.any(y[cc] == y[d]):
+      return 'a dissimilar pair joins equal labels'
+  elif kind == 'chunks':
+    for k in range(int(c.max()) + 1):
+      if len(np.unique(y[c == k])) > 1:
+        return 'a chunk mixes labels'
+  else:
+    c = np.asarray(c, dtype=int)
+    if np.any(y[c[:, 0]] != y[c[:, 1]]) or np.any(y[c[:, 0]] == y[c[:, 2]]):
+      return 'a triplet is not (anchor, same label, other label)'
+  return None
 
 
 def run(ctx):
@@ -68,7 +93,7 @@ def run(ctx):
               "integer seeds x label layouts {fully labelled, unknown labels (-1) at random positions, at the front, at the "
               "back}: components_ of X_Supervised.fit(X, y) must be bit-identical to the base learner fitted on the tuples "
               "that the public Constraints helper derives from y with the same random_state; no constraint may use a point "
-              "whose label is -1.  non-trivial = unknown labels present or non-default parameters.")
+              "whose label is -1; the derived tuples agree with the labels (similar = equal known labels, dissimilar = different).  non-trivial = unknown labels present or non-default parameters.")
   ctx.trusted = ["Coq 8.16.1 kernel", "translator tools/translate_supervised.py (canonical statement spelling)",
                  "C07's model of Constraints (re-exported clauses)", "determinism of the solvers (C17)"]
   ctx.build_property(gen_needed=['Src_supervised'])
@@ -114,7 +139,7 @@ def run(ctx):
           with warnings.catch_warnings():
             warnings.simplefilter('ignore')
             sup = fits.make_estimator(name, kw).fit(X, y)
-            base, used = via_constraints(name, kw, X, y)
+            base, used, cons = via_constraints(name, kw, X, y)
         except Exception as ex:
           ctx.fail_input('supervised_vs_base', '%s: pipeline raises %s' % (name, type(ex).__name__),
                          dict(estimator=name, layout=layout, y=y.tolist(), params={k: repr(v)[:40] for k, v in kw.items()}),
@@ -124,6 +149,11 @@ def run(ctx):
         if np.any(y[used] < 0):
           ctx.fail_input('unknown_never_constrained', name + ': a constraint uses a point whose label is unknown', inp,
                          observed=[int(i) for i in used if y[i] < 0])
+        bad = label_derived(cons, y)
+        ctx.count('label_derived', 1)
+        if bad is not None:
+          ctx.fail_input('label_derived', name + ': ' + bad, inp, observed=[np.asarray(v).tolist() for v in cons[1]] if cons[0] == 'pairs'
+                         else np.asarray(cons[1]).tolist())
         if not np.array_equal(sup.components_, base.components_, equal_nan=True):
           ctx.fail_input('supervised_vs_base', name + ' with %s labels: metric differs from the base learner on Constraints-derived tuples' % (
               'unknown' if layout != 'full' else 'complete'), inp,
